@@ -297,6 +297,11 @@ def run(ctx):
                                       'first: SRecord%r' % (len(bad), recs[i][1])))
         # ---- correspondence 2: whole files, line by line; 3: Coq reference reader on the real output
         objs = objects(ctx, thorough)
+        # while the implementation is still the writer before the fixes, compare the *_orig model (keeps the model of
+        # the refuted theorems tied to the code); the defects themselves are reported by the oracle below
+        probe = impl_write(sr, 0x8000, [1, 2, 3])
+        legacy = isinstance(probe, OkV) and probe.v.startswith('S106000048445')
+        ctx.cov['stages']['implementation_state'] = {'writer_before_fixes': legacy}
         small = [o for o in objs if o[0] != 'big']
         bigs = [o for o in objs if o[0] == 'big'][:(1 if not thorough else 7)]   # model side is slow; the oracle sees all
         fcases, bcases, rcases = [], [], []
@@ -326,7 +331,8 @@ def run(ctx):
                         '[%s]' % '; '.join('"%s"%%string' % l for l in exp.v)), pyrecs))
             else:
                 exp = out
-            (fcases if label != 'big' else bcases).append(('write_srecord %d %s' % (base, coq_code(seed, n)), exp))
+            term = ('write_srecord_orig %s' % coq_code(seed, n)) if legacy else ('write_srecord %d %s' % (base, coq_code(seed, n)))
+            (fcases if label != 'big' else bcases).append((term, exp))
         ctx.cov['distinct_nontrivial'] += nontriv
         ctx.cov['stages']['files_distribution'] = dist
         for (label, base, seed, n) in (small[5], small[40], small[100], small[200], bigs[0]):
